@@ -501,8 +501,9 @@ func (c *collector) getName(m metricdata.Metrics, typ *dto.MetricType) string {
 		// later, and it needs to come after the unit suffix.
 		name = strings.TrimSuffix(name, counterSuffix)
 		// If the last character is an underscore, or would be converted to an underscore, trim it from the name.
-		// an underscore will be added back in later.
-		if convertsToUnderscore(rune(name[len(name)-1])) {
+		// an underscore will be added back in later. The name is empty here
+		// when the instrument is named exactly like the suffix.
+		if len(name) > 0 && convertsToUnderscore(rune(name[len(name)-1])) {
 			name = name[:len(name)-1]
 		}
 	}
